@@ -25,6 +25,7 @@ type c07 struct {
 	req2    *Req
 	perReq2 uint64
 	dag2    *DAG
+	earlier uint64 // a limit set by an earlier hook call for the same request (0 = none); the later call counts
 }
 
 func newC07() Scenario { return &c07{c02: c02{prop: "C07"}} }
@@ -101,15 +102,27 @@ func (s *c07) Build(w *World) {
 		}
 		return s.perReq
 	}
+	// a limit may be set more than once for a request (a general hook, then a more specific one): the last call counts
+	earlier := uint64(0)
+	if t.Chance(300) {
+		earlier = uint64(1 + t.Draw(20))
+	}
+	s.earlier = earlier
 	if s.side == "requestor" {
 		s.a.OnOutgoingRequest = func(p peer.ID, r graphsync.RequestData, a graphsync.OutgoingRequestHookActions) {
 			if n := perReqOf(r.ID()); n > 0 {
+				if earlier > 0 {
+					a.MaxLinks(earlier)
+				}
 				a.MaxLinks(n)
 			}
 		}
 	} else {
 		s.b.OnIncomingRequest = func(p peer.ID, r graphsync.RequestData, a graphsync.IncomingRequestHookActions) {
 			if n := perReqOf(r.ID()); n > 0 {
+				if earlier > 0 {
+					a.MaxLinks(earlier)
+				}
 				a.MaxLinks(n)
 			}
 		}
@@ -130,7 +143,7 @@ func (s *c07) Describe(w *World) string {
 	if s.req2 != nil {
 		second = fmt.Sprintf(" then r2 perReq=%d", s.perReq2)
 	}
-	return fmt.Sprintf("side=%s global=%d perReq=%d N=%d needed=%d localAll=%v dag=%d sel=%s%s", s.side, s.global, s.perReq, s.n, s.needed, s.localAll, len(s.dag.Order), s.selDesc, second)
+	return fmt.Sprintf("side=%s earlier=%d global=%d perReq=%d N=%d needed=%d localAll=%v dag=%d sel=%s%s", s.side, s.earlier, s.global, s.perReq, s.n, s.needed, s.localAll, len(s.dag.Order), s.selDesc, second)
 }
 
 func (s *c07) Done(w *World) bool {
